@@ -241,6 +241,7 @@ Qed.
 Lemma cfg_canonical_eq c : cfg_canonical c = true -> c = canonical_cfg.
 Proof.
   unfold cfg_canonical. intros H.
+  apply andb_true_iff in H as [H H7]. apply andb_true_iff in H as [H H6]. apply andb_true_iff in H as [H H5].
   apply andb_true_iff in H as [H H4]. apply andb_true_iff in H as [H H3]. apply andb_true_iff in H as [H1 H2].
   apply phases_eqb_eq in H1. apply phases_eqb_eq in H4. destruct c; cbn in *. subst. reflexivity.
 Qed.
@@ -479,177 +480,219 @@ Proof.
     apply Ha. rewrite <- N. apply in_map. exact Ht'.
 Qed.
 
-(** * Master.init_schedule *)
-Definition init_dels (st : store) (s : Z) (correct : list Z) : list write :=
-  map (WDel s) (filter (fun a => negb (zmem a correct)) (listing st s)).
-Definition init_puts (st : store) (i : info) (s : Z) (correct : list Z) : list write :=
-  map (fun a => WPut s a (get_info i a)) (filter (fun a => negb (zmem a (listing st s))) correct).
-
-Lemma init_server_writes_canonical st i m :
-  init_server_writes canonical_cfg st i m =
-  WEnsure (fst m) :: init_dels st (fst m) (snd m) ++ init_puts st i (fst m) (snd m).
+(** * Master.init_schedule (two passes over all servers; node content reconciled) *)
+Lemma pdata_eqb_eq a b : pdata_eqb a b = true -> a = b.
 Proof.
-  unfold init_server_writes, init_dels, init_puts.
-  cbn [cf_init_phases canonical_cfg flat_map init_phase_writes]. rewrite app_nil_r. reflexivity.
+  unfold pdata_eqb. intros H. apply andb_true_iff in H as [H H3]. apply andb_true_iff in H as [H1 H2].
+  apply oeqb_eq in H1, H2, H3. destruct a, b; cbn in *. congruence.
 Qed.
 
-Lemma in_init_server st i m w s a :
-  In w (init_server_writes canonical_cfg st i m) -> touches s a w = true ->
-  fst m = s /\
-  ((w = WDel s a /\ has st s a = true /\ zmem a (snd m) = false) \/
-   (w = WPut s a (get_info i a) /\ zmem a (snd m) = true /\ has st s a = false)).
+Lemma pdata_eqb_refl' d : pdata_eqb d d = true.
 Proof.
-  rewrite init_server_writes_canonical. intros [<-|H] T; [discriminate|].
-  apply in_app_or in H as [H|H].
-  - unfold init_dels in H. apply in_map_iff in H as [x [<- H]]. apply filter_In in H as [H1 H2].
-    cbn in T. apply same_key_true in T as [E <-]. split; [exact E|]. left. rewrite <- E.
-    split; [reflexivity|]. split.
-    + rewrite <- zmem_listing. apply zmem_In. exact H1.
-    + apply negb_true_iff. exact H2.
-  - unfold init_puts in H. apply in_map_iff in H as [x [<- H]]. apply filter_In in H as [H1 H2].
-    cbn in T. apply same_key_true in T as [E <-]. split; [exact E|]. right. rewrite <- E.
-    split; [reflexivity|]. split.
-    + apply zmem_In. exact H1.
-    + rewrite <- zmem_listing. apply negb_true_iff. exact H2.
+  unfold pdata_eqb. assert (R : forall o, oeqb o o = true) by (intros [x|]; cbn; [apply Z.eqb_refl|reflexivity]).
+  rewrite !R. reflexivity.
 Qed.
 
-Lemma init_writes_canonical_in st i members w :
-  In w (init_writes canonical_cfg st i members) <->
-  (exists m, In m members /\ In w (init_server_writes canonical_cfg st i m)) \/ w = WSave.
+Definition init_dels (st : store) (members : list (Z * list Z)) : list write :=
+  flat_map (fun m => WEnsure (fst m)
+                     :: map (WDel (fst m)) (filter (fun a => negb (zmem a (snd m))) (listing st (fst m)))) members.
+Definition init_puts (st : store) (i : info) (members : list (Z * list Z)) : list write :=
+  flat_map (fun m => map (fun a => WPut (fst m) a (get_info i a))
+                         (filter (fun a => negb (zmem a (listing st (fst m))) || stale_data st i (fst m) a) (snd m)))
+           members.
+
+Lemma init_writes_canonical st i members :
+  init_writes canonical_cfg st i members = init_dels st members ++ init_puts st i members ++ [WSave].
 Proof.
-  unfold init_writes. rewrite in_app_iff, in_flat_map. cbn. intuition.
+  unfold init_writes, init_passes, init_pass_writes, init_dels, init_puts.
+  cbn [cf_init_two_pass cf_init_phases canonical_cfg flat_map]. rewrite app_nil_r, <- app_assoc. reflexivity.
+Qed.
+
+Lemma init_dels_nonput st members : Forall (fun w => is_put w = false) (init_dels st members).
+Proof.
+  apply Forall_forall. intros w H. unfold init_dels in H. apply in_flat_map in H as [m [_ H]].
+  destruct H as [<-|H]; [reflexivity|]. apply in_map_iff in H as [x [<- _]]. reflexivity.
+Qed.
+
+Lemma in_init_dels st members w s a :
+  In w (init_dels st members) -> touches s a w = true ->
+  exists correct, In (s, correct) members /\ w = WDel s a /\ has st s a = true /\ zmem a correct = false.
+Proof.
+  unfold init_dels. intros H T. apply in_flat_map in H as [[s0 correct] [Hm H]]. cbn [fst snd] in H.
+  destruct H as [<-|H]; [discriminate|]. apply in_map_iff in H as [x [<- H]]. apply filter_In in H as [H1 H2].
+  cbn in T. apply same_key_true in T as [-> ->]. exists correct. split; [exact Hm|]. split; [reflexivity|]. split.
+  - rewrite <- zmem_listing. apply zmem_In. exact H1.
+  - apply negb_true_iff. exact H2.
+Qed.
+
+Lemma in_init_puts st i members w :
+  In w (init_puts st i members) ->
+  exists s correct a, In (s, correct) members /\ w = WPut s a (get_info i a) /\ zmem a correct = true /\
+                      (has st s a = false \/ stale_data st i s a = true).
+Proof.
+  unfold init_puts. intros H. apply in_flat_map in H as [[s correct] [Hm H]]. cbn [fst snd] in H.
+  apply in_map_iff in H as [a [<- H]]. apply filter_In in H as [H1 H2].
+  exists s, correct, a. split; [exact Hm|]. split; [reflexivity|]. split; [apply zmem_In; exact H1|].
+  apply orb_true_iff in H2 as [H2|H2]; [left|right; exact H2].
+  rewrite <- zmem_listing. apply negb_true_iff. exact H2.
+Qed.
+
+Lemma del_in_init_dels st members s correct a :
+  In (s, correct) members -> has st s a = true -> zmem a correct = false -> In (WDel s a) (init_dels st members).
+Proof.
+  intros Hm H Z. unfold init_dels. apply in_flat_map. exists (s, correct). split; [exact Hm|]. right. cbn [fst snd].
+  apply in_map_iff. exists a. split; [reflexivity|]. apply filter_In. split.
+  - apply zmem_In. rewrite zmem_listing. exact H.
+  - rewrite Z. reflexivity.
+Qed.
+
+Lemma put_in_init_puts st i members s correct a :
+  In (s, correct) members -> zmem a correct = true -> (has st s a = false \/ stale_data st i s a = true) ->
+  In (WPut s a (get_info i a)) (init_puts st i members).
+Proof.
+  intros Hm Z H. unfold init_puts. apply in_flat_map. exists (s, correct). split; [exact Hm|]. cbn [fst snd].
+  apply in_map_iff. exists a. split; [reflexivity|]. apply filter_In. split; [apply zmem_In; exact Z|].
+  apply orb_true_iff. destruct H as [H|H]; [left|right; exact H]. rewrite zmem_listing, H. reflexivity.
 Qed.
 
 Lemma members_unique (members : list (Z * list Z)) m1 m2 :
   NoDup (map fst members) -> In m1 members -> In m2 members -> fst m1 = fst m2 -> m1 = m2.
 Proof. intros. eapply (NoDup_map_inj fst); eassumption. Qed.
 
-(** C09 for the start-up cycle: after init_schedule the NAMES under every server of the model are
-    exactly server.apps; a node that already existed keeps the data it had (reconciliation is by name
-    only); nodes under servers the model does not know are not looked at. *)
+(** C09 for the start-up cycle: after init_schedule the nodes under every server of the model are exactly
+    server.apps WITH the current placement data; nodes under servers the model does not know are not looked at. *)
 Theorem init_final c st i members :
   cfg_canonical c = true ->
   NoDup (map fst members) ->
   let final := apply_writes st (init_writes c st i members) in
   (forall s correct, In (s, correct) members -> forall a,
-     lookup final s a =
-     if zmem a correct
-     then match lookup st s a with Some d => Some d | None => Some (get_info i a) end
-     else None) /\
+     lookup final s a = if zmem a correct then Some (get_info i a) else None) /\
   (forall s, ~ In s (map fst members) -> forall a, lookup final s a = lookup st s a).
 Proof.
-  intros C ND final. apply cfg_canonical_eq in C. subst c. subst final.
+  intros C ND final. apply cfg_canonical_eq in C. subst c. subst final. rewrite init_writes_canonical.
+  assert (U : forall s correct, In (s, correct) members -> forall a w,
+            In w (init_dels st members ++ init_puts st i members ++ [WSave]) -> touches s a w = true ->
+            (w = WDel s a /\ has st s a = true /\ zmem a correct = false) \/
+            (w = WPut s a (get_info i a) /\ zmem a correct = true /\
+             (has st s a = false \/ stale_data st i s a = true))).
+  { intros s correct Hm a w Hw T. apply in_app_or in Hw as [Hw|Hw].
+    - destruct (in_init_dels st members w s a Hw T) as [c' [Hm' [-> [H Z]]]].
+      assert ((s, c') = (s, correct)) as E by (apply (members_unique members); auto). inversion E; subst. left. auto.
+    - apply in_app_or in Hw as [Hw|[<-|[]]]; [|discriminate].
+      destruct (in_init_puts st i members w Hw) as [s' [c' [a' [Hm' [-> [Z H]]]]]].
+      cbn in T. apply same_key_true in T as [-> ->].
+      assert ((s, c') = (s, correct)) as E by (apply (members_unique members); auto). inversion E; subst. right. auto. }
   split.
-  - intros s correct Hm a.
-    assert (U : forall w, In w (init_writes canonical_cfg st i members) -> touches s a w = true ->
-                (w = WDel s a /\ has st s a = true /\ zmem a correct = false) \/
-                (w = WPut s a (get_info i a) /\ zmem a correct = true /\ has st s a = false)).
-    { intros w Hw T. apply init_writes_canonical_in in Hw as [[m [Hm' Hw]]| ->]; [|discriminate].
-      destruct (in_init_server st i m w s a Hw T) as [E R].
-      assert (m = (s, correct)) by (apply (members_unique members); auto). subst m. exact R. }
+  - intros s correct Hm a. specialize (U s correct Hm a).
     destruct (zmem a correct) eqn:ZC.
     + destruct (lookup st s a) as [d|] eqn:L.
-      * rewrite lookup_untouched; [exact L|]. apply Forall_forall. intros w Hw.
-        destruct (touches s a w) eqn:T; [|reflexivity]. exfalso.
-        rewrite has_lookup, L in U. destruct (U w Hw T) as [[_ [_ X]]|[_ [_ X]]]; discriminate.
+      * destruct (pdata_eqb d (get_info i a)) eqn:PE.
+        -- apply pdata_eqb_eq in PE. subst d. rewrite lookup_untouched; [exact L|].
+           apply Forall_forall. intros w Hw. destruct (touches s a w) eqn:T; [|reflexivity]. exfalso.
+           destruct (U w Hw T) as [[_ [_ X]]|[_ [_ [X|X]]]]; try discriminate.
+           ++ rewrite has_lookup, L in X. discriminate.
+           ++ unfold stale_data in X. rewrite L in X. rewrite pdata_eqb_refl' in X. discriminate.
+        -- apply lookup_put_wins.
+           ++ apply in_or_app. right. apply in_or_app. left. apply (put_in_init_puts st i members s correct a Hm ZC).
+              right. unfold stale_data. rewrite L, PE. reflexivity.
+           ++ intros w Hw T. destruct (U w Hw T) as [[_ [_ X]]|[X _]]; [discriminate|exact X].
       * apply lookup_put_wins.
-        -- apply init_writes_canonical_in. left. exists (s, correct). split; [exact Hm|].
-           rewrite init_server_writes_canonical. right. apply in_or_app. right.
-           unfold init_puts. cbn [fst snd]. apply in_map_iff. exists a. split; [reflexivity|].
-           apply filter_In. split; [apply zmem_In; exact ZC|].
-           rewrite zmem_listing, has_lookup, L. reflexivity.
-        -- intros w Hw T. destruct (U w Hw T) as [[_ [X _]]|[X _]]; [|exact X].
-           rewrite has_lookup, L in X. discriminate.
+        -- apply in_or_app. right. apply in_or_app. left. apply (put_in_init_puts st i members s correct a Hm ZC).
+           left. rewrite has_lookup, L. reflexivity.
+        -- intros w Hw T. destruct (U w Hw T) as [[_ [_ X]]|[X _]]; [discriminate|exact X].
     + destruct (has st s a) eqn:H.
       * apply lookup_del_wins.
-        -- apply init_writes_canonical_in. left. exists (s, correct). split; [exact Hm|].
-           rewrite init_server_writes_canonical. right. apply in_or_app. left.
-           unfold init_dels. cbn [fst snd]. apply in_map_iff. exists a. split; [reflexivity|].
-           apply filter_In. split; [apply zmem_In; rewrite zmem_listing; exact H|].
-           rewrite ZC. reflexivity.
+        -- apply in_or_app. left. apply (del_in_init_dels st members s correct a Hm H ZC).
         -- intros w Hw T. destruct (U w Hw T) as [[-> _]|[_ [X _]]]; [reflexivity|discriminate].
       * rewrite lookup_untouched.
         -- rewrite has_lookup in H. destruct (lookup st s a); [discriminate|reflexivity].
         -- apply Forall_forall. intros w Hw. destruct (touches s a w) eqn:T; [|reflexivity]. exfalso.
            destruct (U w Hw T) as [[_ [X _]]|[_ [X _]]]; congruence.
   - intros s Hs a. apply lookup_untouched. apply Forall_forall. intros w Hw.
-    destruct (touches s a w) eqn:T; [|reflexivity]. exfalso.
-    apply init_writes_canonical_in in Hw as [[m [Hm' Hw]]| ->]; [|discriminate].
-    destruct (in_init_server st i m w s a Hw T) as [E _].
-    apply Hs. rewrite <- E. apply in_map. exact Hm'.
+    destruct (touches s a w) eqn:T; [|reflexivity]. exfalso. apply Hs.
+    apply in_app_or in Hw as [Hw|Hw].
+    + destruct (in_init_dels st members w s a Hw T) as [c' [Hm' _]]. change s with (fst (s, c')). apply in_map. exact Hm'.
+    + apply in_app_or in Hw as [Hw|[<-|[]]]; [|discriminate].
+      destruct (in_init_puts st i members w Hw) as [s' [c' [a' [Hm' [-> _]]]]].
+      cbn in T. apply same_key_true in T as [-> _]. change s with (fst (s, c')). apply in_map. exact Hm'.
 Qed.
 
-(** init_schedule walks the servers one by one (stale nodes of a server deleted, then missing ones
-    created, then the next server): it is crash safe when the start-up cycle has moved nothing *)
+(** C10 for the start-up publication: every prefix of init_schedule's writes is free of double entries *)
 Definition members_target (members : list (Z * list Z)) (a s : Z) : Prop :=
   exists correct, In (s, correct) members /\ zmem a correct = true.
 
-Theorem init_prefix_no_double_partial c st i members k :
+Theorem init_prefix_no_double c st i members k :
   cfg_canonical c = true ->
   no_double st ->
   functional (members_target members) ->
-  pinned (members_target members) st ->
+  (forall s a, has st s a = true -> In s (map fst members)) ->
   no_double (apply_writes st (firstn k (init_writes c st i members))).
 Proof.
-  intros C D F P. apply cfg_canonical_eq in C. subst c.
-  apply (safe_writes (members_target members)); [exact F| |split; assumption].
-  apply firstn_Forall. apply Forall_forall. intros w Hw.
-  apply init_writes_canonical_in in Hw as [[m [Hm Hw]]| ->]; [|exact I].
-  rewrite init_server_writes_canonical in Hw. destruct Hw as [<-|Hw]; [exact I|].
-  apply in_app_or in Hw as [Hw|Hw].
-  - unfold init_dels in Hw. apply in_map_iff in Hw as [x [<- _]]. exact I.
-  - unfold init_puts in Hw. apply in_map_iff in Hw as [x [<- Hx]]. apply filter_In in Hx as [Hx _].
-    cbn. exists (snd m). split; [destruct m; exact Hm|apply zmem_In; exact Hx].
+  intros C D F Known. apply cfg_canonical_eq in C. subst c. rewrite init_writes_canonical.
+  set (ds := init_dels st members). set (ps := init_puts st i members ++ [WSave]).
+  destruct (prefix_app ds ps k) as [->|[k1 ->]].
+  - intros a s1 s2 H1 H2.
+    assert (NP : Forall (fun w => is_put w = false) (firstn k ds)) by (apply firstn_Forall, init_dels_nonput).
+    eapply D; eapply has_apply_nonputs; eassumption.
+  - rewrite apply_writes_app.
+    apply (safe_writes (members_target members)); [exact F| |].
+    + apply firstn_Forall. apply Forall_forall. intros w Hw. unfold ps in Hw.
+      apply in_app_or in Hw as [Hw|[<-|[]]]; [|exact I].
+      destruct (in_init_puts st i members w Hw) as [s [correct [a [Hm [-> [Z _]]]]]]. cbn. exists correct. auto.
+    + split.
+      * intros a s1 s2 H1 H2. eapply D; eapply has_apply_nonputs; try eassumption; apply init_dels_nonput.
+      * intros a s [correct [Hm Z]] s' H.
+        assert (H0 : has st s' a = true) by (eapply has_apply_nonputs; [apply init_dels_nonput|exact H]).
+        pose proof (Known s' a H0) as Hs'. apply in_map_iff in Hs' as [[s'' c'] [E Hm']]. cbn in E. subst s''.
+        destruct (zmem a c') eqn:Z'.
+        -- apply (F a); [exists c'|exists correct]; auto.
+        -- exfalso.
+           assert (L : lookup (apply_writes st ds) s' a = None).
+           { apply lookup_del_wins; [apply (del_in_init_dels st members s' c' a Hm' H0 Z')|].
+             intros w Hw _. pose proof (init_dels_nonput st members) as NP. rewrite Forall_forall in NP. apply NP. exact Hw. }
+           apply has_lookup_none in L. congruence.
 Qed.
 
 (** * Loader.check_placement_integrity *)
-Definition first_server (pairs : list (Z * Z)) (a : Z) : option Z :=
-  match find (fun p => Z.eqb (snd p) a) pairs with Some p => Some (fst p) | None => None end.
-
 Lemma amap_get_app l1 l2 k :
   amap_get (l1 ++ l2) k = match amap_get l1 k with Some v => Some v | None => amap_get l2 k end.
 Proof.
   induction l1 as [|[k0 v0] l1 IH]; cbn; [reflexivity|]. destruct (Z.eqb k0 k); [reflexivity|exact IH].
 Qed.
 
-Lemma scan_a2s wh pairs : forall a2s m ws,
-  integrity_scan wh pairs a2s = (m, ws, None) ->
-  forall a, amap_get m a = match amap_get a2s a with Some s => Some s | None => first_server pairs a end.
+Lemma amap_get_set m a v k : amap_get (amap_set m a v) k = if Z.eqb a k then Some v else amap_get m k.
 Proof.
-  induction pairs as [|[s a0] r IH]; intros a2s m ws H a.
-  - cbn in H. inversion H; subst. unfold first_server. cbn. destruct (amap_get m a); reflexivity.
-  - cbn [integrity_scan] in H. unfold first_server. cbn [find snd fst].
-    destruct (amap_get a2s a0) as [first|] eqn:G.
-    + destruct (wh a0) as [correct|]; [|discriminate].
-      destruct (oeqb correct (Some first) || oeqb correct (Some s)); [|discriminate].
-      destruct (integrity_scan wh r a2s) as [[m' ws'] o'] eqn:R. inversion H; subst.
-      rewrite (IH _ _ _ R a). destruct (amap_get a2s a) eqn:G'; [reflexivity|].
-      destruct (Z.eqb a0 a) eqn:E; [|reflexivity]. apply Z.eqb_eq in E. subst. congruence.
-    + rewrite (IH _ _ _ H a). rewrite amap_get_app. destruct (amap_get a2s a) eqn:G'; [reflexivity|].
-      cbn. destruct (Z.eqb a0 a); reflexivity.
+  induction m as [|[k0 w] m IH]; cbn.
+  - destruct (Z.eqb a k); reflexivity.
+  - destruct (Z.eqb k0 a) eqn:E; cbn.
+    + apply Z.eqb_eq in E. subst k0. destruct (Z.eqb a k); reflexivity.
+    + rewrite IH. destruct (Z.eqb k0 k) eqn:E2; [|reflexivity].
+      apply Z.eqb_eq in E2. subst k0. rewrite Z.eqb_sym in E. rewrite E. reflexivity.
 Qed.
 
-Lemma scan_error_not_ok wh pairs : forall a2s m ws e,
-  integrity_scan wh pairs a2s = (m, ws, Some e) -> e <> IOk.
+Lemma scan_error_not_ok upd wh pairs : forall a2s m ws e,
+  integrity_scan upd wh pairs a2s = (m, ws, Some e) -> e <> IOk.
 Proof.
   induction pairs as [|[s a0] r IH]; intros a2s m ws e H.
   - cbn in H. discriminate.
   - cbn [integrity_scan] in H. destruct (amap_get a2s a0) as [first|].
     + destruct (wh a0) as [correct|]; [|inversion H; discriminate].
       destruct (oeqb correct (Some first) || oeqb correct (Some s)); [|inversion H; discriminate].
-      destruct (integrity_scan wh r a2s) as [[m' ws'] o'] eqn:R. inversion H; subst. eapply IH. exact R.
+      destruct (integrity_scan upd wh r (integ_next upd a2s a0 first correct)) as [[m' ws'] o'] eqn:R.
+      inversion H; subst. eapply IH. exact R.
     + eapply IH. exact H.
 Qed.
 
-Lemma scan_writes_nonput wh pairs : forall a2s m ws o,
-  integrity_scan wh pairs a2s = (m, ws, o) -> Forall (fun w => is_put w = false) ws.
+Lemma scan_writes_nonput upd wh pairs : forall a2s m ws o,
+  integrity_scan upd wh pairs a2s = (m, ws, o) -> Forall (fun w => is_put w = false) ws.
 Proof.
   induction pairs as [|[s a0] r IH]; intros a2s m ws o H.
   - cbn in H. inversion H. constructor.
   - cbn [integrity_scan] in H. destruct (amap_get a2s a0) as [first|].
     + destruct (wh a0) as [correct|]; [|inversion H; constructor].
       destruct (oeqb correct (Some first) || oeqb correct (Some s)); [|inversion H; constructor].
-      destruct (integrity_scan wh r a2s) as [[m' ws'] o'] eqn:R. inversion H; subst.
+      destruct (integrity_scan upd wh r (integ_next upd a2s a0 first correct)) as [[m' ws'] o'] eqn:R.
+      inversion H; subst.
       apply Forall_app. split; [destruct (oeqb correct (Some s)); repeat constructor|].
       apply Forall_app. split; [destruct (oeqb correct (Some first)); repeat constructor|].
       eapply IH. exact R.
@@ -666,36 +709,92 @@ Proof.
 Qed.
 
 (** the check only ever deletes *)
-Theorem integrity_writes_delete_only wh placed pairs :
-  Forall (fun w => is_put w = false) (fst (integrity wh placed pairs)).
+Theorem integrity_writes_delete_only upd wh placed pairs :
+  Forall (fun w => is_put w = false) (fst (integrity upd wh placed pairs)).
 Proof.
-  unfold integrity. destruct (integrity_scan wh pairs []) as [[m ws] o] eqn:R.
+  unfold integrity. destruct (integrity_scan upd wh pairs []) as [[m ws] o] eqn:R.
   apply scan_writes_nonput in R. destruct o; exact R.
 Qed.
 
-(** passing means: every placed instance's FIRST listed entry is under the model's server *)
-Theorem integrity_ok_sound wh placed pairs :
-  snd (integrity wh placed pairs) = IOk ->
-  forall a s, In (a, s) placed -> first_server pairs a = Some s.
+(** entries of instance [a] in the listing *)
+Definition listed (pairs : list (Z * Z)) (a : Z) : list (Z * Z) := filter (fun p => Z.eqb (snd p) a) pairs.
+
+(** with the map kept up to date: at the end of an error-free first pass, the map names, for an instance the model
+    has on server [c], the only listed server if there is one entry, and [c] as soon as there were two or more *)
+Lemma scan_upd wh pairs : forall a2s m ws,
+  integrity_scan true wh pairs a2s = (m, ws, None) ->
+  forall a c, wh a = Some (Some c) ->
+  amap_get m a = match amap_get a2s a with
+                 | Some f => if existsb (fun p => Z.eqb (snd p) a) pairs then Some c else Some f
+                 | None => match listed pairs a with
+                           | [] => None
+                           | [p] => Some (fst p)
+                           | _ => Some c
+                           end
+                 end.
 Proof.
-  unfold integrity. destruct (integrity_scan wh pairs []) as [[m ws] o] eqn:R. destruct o as [e|]; cbn.
-  - intros ->. exfalso. eapply scan_error_not_ok; [exact R|reflexivity].
-  - destruct (integrity_cross m placed) eqn:X; [|discriminate]. intros _ a s Hin.
-    rewrite integrity_cross_true in X. rewrite <- (X a s Hin). rewrite (scan_a2s _ _ _ _ _ R a). reflexivity.
+  induction pairs as [|[s a0] r IH]; intros a2s m ws H a c W.
+  - cbn in H. inversion H; subst. cbn. destruct (amap_get m a); reflexivity.
+  - cbn [integrity_scan] in H. unfold listed. cbn [filter existsb snd].
+    destruct (amap_get a2s a0) as [first|] eqn:G.
+    + destruct (wh a0) as [correct|] eqn:W0; [|discriminate].
+      destruct (oeqb correct (Some first) || oeqb correct (Some s)) eqn:Cnd; [|discriminate].
+      set (a2s' := integ_next true a2s a0 first correct) in *.
+      destruct (integrity_scan true wh r a2s') as [[m' ws'] o'] eqn:R.
+      inversion H; subst m' o'. clear H.
+      rewrite (IH _ _ _ R a c W).
+      destruct (Z.eqb a0 a) eqn:E.
+      * apply Z.eqb_eq in E. subst a0. rewrite W in W0. inversion W0; subst correct. rewrite G.
+        assert (G' : amap_get a2s' a = Some c).
+        { unfold a2s', integ_next. destruct (oeqb (Some c) (Some first)) eqn:E1.
+          - apply oeqb_eq in E1. inversion E1; subst. exact G.
+          - rewrite amap_get_set, Z.eqb_refl. reflexivity. }
+        rewrite G'. cbn [orb]. destruct (existsb _ r); reflexivity.
+      * assert (G' : amap_get a2s' a = amap_get a2s a).
+        { unfold a2s', integ_next. destruct (oeqb correct (Some first)); [reflexivity|].
+          destruct correct as [cv|]; [|reflexivity]. rewrite amap_get_set, E. reflexivity. }
+        rewrite G'. cbn [orb]. reflexivity.
+    + rewrite (IH _ _ _ H a c W). rewrite amap_get_app. destruct (Z.eqb a0 a) eqn:E.
+      * apply Z.eqb_eq in E. subst a0. rewrite G. cbn [amap_get]. rewrite Z.eqb_refl. cbn [fst].
+        fold (listed r a). unfold listed.
+        assert (X : existsb (fun p => Z.eqb (snd p) a) r = match filter (fun p => Z.eqb (snd p) a) r with [] => false | _ => true end).
+        { clear. induction r as [|p r IH]; cbn; [reflexivity|]. destruct (Z.eqb (snd p) a); cbn; [reflexivity|exact IH]. }
+        rewrite X. destruct (filter (fun p => Z.eqb (snd p) a) r); reflexivity.
+      * destruct (amap_get a2s a); [reflexivity|]. cbn [amap_get]. rewrite E. reflexivity.
 Qed.
 
-(** the stale app2server map: when the entry the model agrees with is not the first one listed, the
-    check fails -- also when its own repair has just made the store right *)
-Theorem integrity_stale_first wh placed pairs a s1 s2 :
-  first_server pairs a = Some s1 -> In (a, s2) placed -> s1 <> s2 ->
-  snd (integrity wh placed pairs) <> IOk.
+(** F-a: unless the first pass hits its own "no repair possible" assertion, the check -- after removing the duplicate
+    entries it found -- passes whenever every placed instance has an entry under the model's server *)
+Theorem integrity_repair_then_pass wh placed pairs :
+  (forall a s, In (a, s) placed -> wh a = Some (Some s) /\ In (s, a) pairs) ->
+  snd (integrity true wh placed pairs) <> IKeyError ->
+  snd (integrity true wh placed pairs) <> IAssertNeither ->
+  snd (integrity true wh placed pairs) = IOk.
 Proof.
-  intros F Hin NE H. pose proof (integrity_ok_sound _ _ _ H a s2 Hin) as F'. congruence.
+  unfold integrity. intros Hp. destruct (integrity_scan true wh pairs []) as [[m ws] o] eqn:R.
+  destruct o as [e|]; cbn [snd].
+  - intros N1 N2. exfalso.
+    assert (e = IKeyError \/ e = IAssertNeither).
+    { clear - R. revert R. generalize (@nil (Z * Z)) as a2s. revert m ws.
+      induction pairs as [|[s a0] r IH]; intros m ws a2s R; [cbn in R; discriminate|].
+      cbn [integrity_scan] in R. destruct (amap_get a2s a0) as [first|].
+      - destruct (wh a0) as [correct|]; [|inversion R; auto].
+        destruct (oeqb correct (Some first) || oeqb correct (Some s)); [|inversion R; auto].
+        destruct (integrity_scan true wh r (integ_next true a2s a0 first correct)) as [[m' ws'] o'] eqn:R'.
+        inversion R; subst. eapply IH. exact R'.
+      - eapply IH. exact R. }
+    destruct H; subst; contradiction.
+  - intros _ _. assert (X : integrity_cross m placed = true); [|rewrite X; reflexivity].
+    apply integrity_cross_true. intros a s Hin. destruct (Hp a s Hin) as [W I].
+    rewrite (scan_upd wh pairs [] m ws R a s W). cbn [amap_get].
+    assert (IL : In (s, a) (listed pairs a)) by (apply filter_In; split; [exact I|apply Z.eqb_refl]).
+    destruct (listed pairs a) as [|p [|q l]]; [contradiction| |reflexivity].
+    destruct IL as [->|[]]. reflexivity.
 Qed.
 
-Lemma scan_nodup wh pairs : forall a2s,
+Lemma scan_nodup upd wh pairs : forall a2s,
   NoDup (map snd pairs) -> (forall p, In p pairs -> amap_get a2s (snd p) = None) ->
-  integrity_scan wh pairs a2s = (a2s ++ map (fun p => (snd p, fst p)) pairs, [], None).
+  integrity_scan upd wh pairs a2s = (a2s ++ map (fun p => (snd p, fst p)) pairs, [], None).
 Proof.
   induction pairs as [|[s a0] r IH]; intros a2s ND H.
   - cbn. rewrite app_nil_r. reflexivity.
@@ -707,13 +806,13 @@ Proof.
     rewrite E. apply in_map. exact Hp.
 Qed.
 
-Lemma first_server_nodup pairs a s :
-  NoDup (map snd pairs) -> (first_server pairs a = Some s <-> In (s, a) pairs).
+Lemma amap_get_swap pairs a s :
+  NoDup (map snd pairs) -> (amap_get (map (fun p => (snd p, fst p)) pairs) a = Some s <-> In (s, a) pairs).
 Proof.
-  unfold first_server. induction pairs as [|[s0 a0] r IH]; intros ND; cbn.
+  induction pairs as [|[s0 a0] r IH]; intros ND; cbn.
   - split; [discriminate|contradiction].
   - cbn in ND. inversion ND as [|? ? Hn ND']; subst. destruct (Z.eqb a0 a) eqn:E.
-    + apply Z.eqb_eq in E. subst. cbn. split.
+    + apply Z.eqb_eq in E. subst. split.
       * intros H. inversion H. left. reflexivity.
       * intros [H|H]; [inversion H; reflexivity|]. exfalso. apply Hn.
         change a with (snd (s, a)). apply in_map. exact H.
@@ -724,24 +823,20 @@ Qed.
 (** on a store without double entries the check writes nothing, never hits an assert of the first pass,
     and passes iff every placed instance has its entry under the model's server (model within store;
     entries of pending or unknown instances are NOT noticed) *)
-Theorem integrity_nodup wh placed pairs :
+Theorem integrity_nodup upd wh placed pairs :
   NoDup (map snd pairs) ->
-  fst (integrity wh placed pairs) = [] /\
-  (snd (integrity wh placed pairs) = IOk <-> forall a s, In (a, s) placed -> In (s, a) pairs) /\
-  (snd (integrity wh placed pairs) = IOk \/ snd (integrity wh placed pairs) = IAssertFailed).
+  fst (integrity upd wh placed pairs) = [] /\
+  (snd (integrity upd wh placed pairs) = IOk <-> forall a s, In (a, s) placed -> In (s, a) pairs) /\
+  (snd (integrity upd wh placed pairs) = IOk \/ snd (integrity upd wh placed pairs) = IAssertFailed).
 Proof.
   intros ND. unfold integrity. rewrite scan_nodup; [|exact ND|reflexivity]. cbn [app fst snd].
   split; [reflexivity|]. split.
   - destruct (integrity_cross _ placed) eqn:X.
     + split; [|reflexivity]. intros _ a s Hin. rewrite integrity_cross_true in X.
-      apply (first_server_nodup pairs a s ND).
-      pose proof (scan_a2s wh pairs [] _ _ (scan_nodup wh pairs [] ND (fun _ _ => eq_refl)) a) as Q.
-      cbn in Q. rewrite <- Q. apply X. exact Hin.
+      apply (amap_get_swap pairs a s ND). apply X. exact Hin.
     + split; [discriminate|]. intros H. exfalso.
       assert (integrity_cross (map (fun p => (snd p, fst p)) pairs) placed = true); [|congruence].
-      apply integrity_cross_true. intros a s Hin.
-      pose proof (scan_a2s wh pairs [] _ _ (scan_nodup wh pairs [] ND (fun _ _ => eq_refl)) a) as Q.
-      cbn in Q. rewrite Q. apply (first_server_nodup pairs a s ND). apply H. exact Hin.
+      apply integrity_cross_true. intros a s Hin. apply (amap_get_swap pairs a s ND). apply H. exact Hin.
   - destruct (integrity_cross _ placed); auto.
 Qed.
 
@@ -829,12 +924,6 @@ Proof.
   induction l as [|x l IH]; cbn; intros H; constructor.
   - apply andb_true_iff in H as [H _]. intros C. apply zmem_In in C. rewrite C in H. discriminate.
   - apply IH. apply andb_true_iff in H. tauto.
-Qed.
-
-Lemma pdata_eqb_eq a b : pdata_eqb a b = true -> a = b.
-Proof.
-  unfold pdata_eqb. intros H. apply andb_true_iff in H as [H H3]. apply andb_true_iff in H as [H1 H2].
-  apply oeqb_eq in H1, H2, H3. destruct a, b; cbn in *. congruence.
 Qed.
 
 Lemma unchanged_publishedb_sound tuples i st :
